@@ -24,6 +24,14 @@ class BoomT(TypeError):
         self.eid = eid
 
 
+class BoomS(StopIteration):
+    """a StopIteration raised by the body of a hook (`next(...)` on an empty iterator): an exception like any other"""
+
+    def __init__(self, eid):
+        StopIteration.__init__(self, eid)
+        self.eid = eid
+
+
 class Val:
     """what __conform__ / a hook / __adapt__ / a factory answers.  Every odd-numbered one is FALSY (an empty container-like
     adapter is a legal adapter: "non-None", not "true", is what the statement says)"""
@@ -66,7 +74,7 @@ def run(lines, out, args):
         raised = {}
 
         def boom(e, attr=False):
-            raised[e] = (BoomT if attr == "T" else BoomA if attr else Boom)(e)
+            raised[e] = (BoomS if attr == "S" else BoomT if attr == "T" else BoomA if attr else Boom)(e)
             return raised[e]
 
         depth = [0]
@@ -272,7 +280,7 @@ def run(lines, out, args):
                     return None
                 if t.startswith("v"):
                     return val(int(t[1:]))
-                raise boom(int(t[1:]), t[0] == "Q")
+                raise boom(int(t[1:]), "S" if t[0] == "S" else t[0] == "Q")
             hl.append(hook)
         hooks_list[:] = hl
         # observe the provided check: wrap providedBy on the interface instance is not possible in C; log it by result instead
@@ -286,7 +294,7 @@ def run(lines, out, args):
                 got = "val 0"
             else:
                 got = "other %r" % (r,)
-        except (Boom, BoomA, BoomT) as e:
+        except (Boom, BoomA, BoomT, BoomS) as e:
             got = "exc %d" % e.eid if raised.get(e.eid) is e else "exc-copy %d" % e.eid
         except TypeError as e:
             if e.args == ("Could not adapt", ob, I):
